@@ -626,8 +626,9 @@ class Path(PathDeprecations):
                 raise PathError(f"{ptype} is not executable: {abs_path!r}")
             if "D" in mode and os.path.isdir(abs_path):
                 raise PathError(f"Path is a directory: {abs_path!r}")
-            if "F" in mode and (os.path.isfile(abs_path) or stat.S_ISFIFO(os.stat(abs_path).st_mode)):
-                raise PathError(f"Path is a file: {abs_path!r}")
+            if "F" in mode and os.path.exists(abs_path):
+                if os.path.isfile(abs_path) or stat.S_ISFIFO(os.stat(abs_path).st_mode):
+                    raise PathError(f"Path is a file: {abs_path!r}")
             if "R" in mode and os.access(abs_path, os.R_OK):
                 raise PathError(f"{ptype} is readable: {abs_path!r}")
             if "W" in mode and os.access(abs_path, os.W_OK):
